@@ -11,6 +11,7 @@ import warnings
 
 import numpy
 import shapely
+from hypothesis import strategies as st
 from shapely.geometry import Polygon
 
 from vf import refmodel, specs
@@ -238,9 +239,41 @@ def mesh_strategy(tier):
                           geom_kwargs={"allow_overlap": True})
 
 
+@st.composite
+def rotated_grid_with_corner_cut(draw):
+    """2-D grids turned by 45 / 135 degrees (so that a CORNER cell is the extreme in each compass
+    direction) with a staircase of five cells cut out of one corner: the extreme cell in that
+    direction is then an interior cell of the array."""
+    nj, ni = draw(st.integers(4, 6)), draw(st.integers(4, 6))
+    (ax, ay), (bx, by) = draw(st.sampled_from([((6, 6), (-6, 6)), ((-6, 6), (-6, -6)),
+                                               ((6, -6), (6, 6)), ((-6, -6), (6, -6))]))
+    unit = 2.0 ** -draw(st.sampled_from([3, 4]))
+    ox, oy = draw(st.integers(-150, 100)), draw(st.integers(-60, 40))
+    nodes = [[[ox + unit * (i * ax + j * bx), oy + unit * (i * ay + j * by)] for i in range(ni + 1)]
+             for j in range(nj + 1)]
+    holes = [[False] * ni for _ in range(nj)]
+    flip_j, flip_i = draw(st.booleans()), draw(st.booleans())
+    for dj, di in [(0, 0), (0, 1), (0, 2), (1, 0), (2, 0)]:
+        j = nj - 1 - dj if flip_j else dj
+        i = ni - 1 - di if flip_i else di
+        holes[j][i] = True
+    shoc = draw(st.booleans())
+    geom = {"nodes": nodes, "holes": holes, "twisted": [], "bounds": draw(st.sampled_from([True, True, False])),
+            "bad_bounds": None,
+            "names": draw(st.sampled_from(S.SHOC_SIMPLE_NAMES if shoc else S.CF2D_NAMES)),
+            "coords_as": draw(st.sampled_from(["coord", "var"])),
+            "bounds_as": draw(st.sampled_from(["var", "coord"])), "detect": "units",
+            "decoy_first": False, "lon_first": draw(st.booleans())}
+    return {"conv": "shoc_simple" if shoc else "cf2d", "geom": geom, "extra": {}, "vars": [],
+            "mode": draw(st.sampled_from(["raw", "decoded"])), "bind": "auto",
+            "warmup": draw(st.lists(st.sampled_from(S.WARMUP_PROPERTIES), max_size=3, unique=True))}
+
+
 SUBS = [
     Sub("datasets", strategy, check_spec, quick=300, thorough=1500),
     Sub("cf1d_axes", cf1d_strategy, check_spec, quick=150, thorough=600),
     Sub("meshes", mesh_strategy, check_spec, quick=150, thorough=600),
+    Sub("rotated_grids_with_corner_cut", lambda tier: rotated_grid_with_corner_cut(), check_spec,
+        quick=25, thorough=150),
 ]
 MATCHERS = {}
